@@ -21,6 +21,8 @@ type progGen struct {
 	slices  []string // []int
 	maps    []string // map[string]int
 	funcs   []string // func(int, int) int
+	fvals   []string // variables holding a function value taken from one of funcs
+	long    bool     // many block scopes in one program (local slot numbers grow large)
 	structs bool
 	insts   []string
 	imports map[string]bool
@@ -67,6 +69,9 @@ func (g *progGen) intExpr(depth int) string {
 	case 2:
 		return "((" + a + ") % 30) * ((" + b + ") % 30)"
 	case 3:
+		if len(g.fvals) > 0 && g.r.Chance(1, 3) {
+			return core.Pick(g.r, g.fvals) + "(" + a + ", " + b + ")"
+		}
 		if len(g.funcs) > 0 {
 			return core.Pick(g.r, g.funcs) + "(" + a + ", " + b + ")"
 		}
@@ -175,7 +180,18 @@ func (g *progGen) scopedStmt() string {
 		acc = func(x string) string { return fmt.Sprintf("host.Obs(%q, %s)", g.id("s"), x) }
 	}
 	var s string
-	switch g.r.Intn(8) {
+	k := g.r.Intn(8)
+	if len(g.funcs) > 0 && g.r.Chance(1, 5) {
+		k = 8 + g.r.Intn(2)
+	}
+	switch k {
+	case 8:
+		// a call through a block-scoped function variable
+		h := core.Pick(g.r, []string{"h", "fn", a})
+		s = fmt.Sprintf("if %s := %s; %s(%s, 1) >= 0 - 5000 { %s }", h, core.Pick(g.r, g.funcs), h, g.intExpr(0), acc(h+"(2, "+g.intExpr(0)+")"))
+	case 9:
+		h := core.Pick(g.r, []string{"h", "fn"})
+		s = fmt.Sprintf("for _, %s := range []func(int, int) int{%s, %s} { %s }", h, core.Pick(g.r, g.funcs), core.Pick(g.r, g.funcs), acc(h+"(3, "+g.intExpr(0)+")"))
 	case 0:
 		s = fmt.Sprintf("if %s := %s; %s > 3 { %s } else { %s }", a, g.intExpr(1), a, acc(a), acc(a+" + 1"))
 	case 1:
@@ -200,7 +216,28 @@ func (g *progGen) scopedStmt() string {
 // stmt returns one top-level statement (one line).
 func (g *progGen) stmt() string {
 	for {
-		switch g.r.Intn(37) {
+		k := g.r.Intn(40)
+		if g.long && g.obs && g.r.Bool() {
+			k = 22
+		}
+		switch k {
+		case 37:
+			// a bare call statement of a script function that has a result
+			if len(g.funcs) == 0 {
+				continue
+			}
+			if len(g.insts) > 0 && g.r.Chance(1, 3) {
+				return core.Pick(g.r, g.insts) + ".Sum(" + g.intExpr(1) + ")"
+			}
+			return core.Pick(g.r, g.funcs) + "(" + g.intExpr(1) + ", " + g.intExpr(1) + ")"
+		case 38, 39:
+			// a function value taken now, called later (the function may be defined again in between)
+			if len(g.funcs) == 0 {
+				continue
+			}
+			v := g.id("g")
+			g.fvals = append(g.fvals, v)
+			return fmt.Sprintf("%s := %s", v, core.Pick(g.r, g.funcs))
 		case 32:
 			// a script function named like a builtin; later statements call it by that name
 			if !g.obs || g.imports["#print"] {
@@ -417,6 +454,10 @@ func (g *progGen) stmt() string {
 }
 
 func (g *progGen) final() string {
+	if len(g.funcs) > 0 && g.r.Chance(1, 6) {
+		// the last statement is a bare call: a call statement has no value in either strategy
+		return core.Pick(g.r, g.funcs) + "(" + g.intExpr(1) + ", " + g.intExpr(1) + ")"
+	}
 	switch g.r.Intn(4) {
 	case 0:
 		if len(g.strs) > 0 {
@@ -434,7 +475,7 @@ func (g *progGen) final() string {
 
 // GenStatements returns n top-level statements plus a final expression.
 func GenStatements(r *core.PRNG, n int, obs bool) []string {
-	g := &progGen{r: r, imports: map[string]bool{}, obs: obs, lib: obs}
+	g := &progGen{r: r, imports: map[string]bool{}, obs: obs, lib: obs, long: n > 20}
 	var out []string
 	if obs {
 		out = append(out, `import "host"`)
